@@ -1700,14 +1700,8 @@ def unsatNorm (n : Nat) (modulus value : List Sec) (negate : Sec) : L (List Sec)
 def unsatOne (u : Nat) : List Sec := (zeros u).set 0 one
 def unsatMinusOne (u : Nat) : List Sec := List.replicate u M62
 
-/-- `Uint::inv_odd_mod(modulus)` = `SafeGcdInverter::new(modulus, ONE).inv(value)`; `n` 64-bit limbs; (value, is_some) -/
-def safegcdInv (n : Nat) (modulus value : List Sec) : L (List Sec × Sec) := do
-  let u := unsatLimbs n
-  let m ← unsatFromUint n u modulus
-  let adj ← unsatFromUint n u (uone n)
-  pubIndex 0
-  let inverse ← invMod262 (limb modulus 0)
-  let g ← unsatFromUint n u value
+/-- `SafeGcdInverter::inv` on unsaturated operands: `divsteps`, then `eq(MINUS_ONE)`, `norm`, `eq(ONE)`, `to_uint` -/
+def safegcdInvTail (u n : Nat) (m adj g : List Sec) (inverse : Sec) : L (List Sec × Sec) := do
   let df ← divsteps u adj m g inverse
   let antiunit ← unsatEq u df.2 (unsatMinusOne u)
   let ret ← unsatNorm u m df.1 antiunit
@@ -1715,37 +1709,96 @@ def safegcdInv (n : Nat) (modulus value : List Sec) : L (List Sec × Sec) := do
   let r ← unsatToUint u n ret
   pure (r, or isOne antiunit)
 
-/-- `SafeGcdInverter::gcd(f, g)` (`Odd<Uint>::gcd`): `f` odd -/
-def safegcdGcd (n : Nat) (f g : List Sec) : L (List Sec) := do
-  let u := unsatLimbs n
+/-- `Uint::inv_odd_mod(modulus)` = `SafeGcdInverter::new(modulus, ONE).inv(value)`; `n` 64-bit limbs; (value, is_some) -/
+def safegcdInv (n : Nat) (modulus value : List Sec) : L (List Sec × Sec) := do
+  let m ← unsatFromUint n (unsatLimbs n) modulus
+  let adj ← unsatFromUint n (unsatLimbs n) (uone n)
   pubIndex 0
-  let inverse ← invMod262 (limb f 0)
-  let fu ← unsatFromUint n u f
-  let gu ← unsatFromUint n u g
+  let inverse ← invMod262 (limb modulus 0)
+  let g ← unsatFromUint n (unsatLimbs n) value
+  safegcdInvTail (unsatLimbs n) n m adj g inverse
+
+/-- `SafeGcdInverter::gcd` on unsaturated operands: `divsteps(ONE, f, g)`, `|f|`, `to_uint` -/
+def safegcdGcdTail (u n : Nat) (fu gu : List Sec) (inverse : Sec) : L (List Sec) := do
   let df ← divsteps u (unsatOne u) fu gu inverse
   let ng ← unsatIsNegative u df.2
   let nf ← unsatNeg u df.2
   let fa ← unsatSelect u df.2 nf ng
   unsatToUint u n fa
 
-/-- `Uint::gcd(rhs)`: strip the common power of two (`trailing_zeros`, secret-shift ladders, mask-selects), then the
-odd-operand safegcd, then shift back -/
-def ugcd (n : Nat) (a b : List Sec) : L (List Sec) := do
+/-- `SafeGcdInverter::gcd(f, g)` (`Odd<Uint>::gcd`): `f` odd -/
+def safegcdGcd (n : Nat) (f g : List Sec) : L (List Sec) := do
+  pubIndex 0
+  let inverse ← invMod262 (limb f 0)
+  let fu ← unsatFromUint n (unsatLimbs n) f
+  let gu ← unsatFromUint n (unsatLimbs n) g
+  safegcdGcdTail (unsatLimbs n) n fu gu inverse
+
+/-- the first half of `Uint::gcd`: `k = min(tz(self), tz(rhs))` by a mask-select, both operands shifted right by the
+SECRET `k` (ladders), `f`, `g` chosen by `s2.is_odd()`; returns (f, g, k) -/
+def ugcdOperands (n : Nat) (a b : List Sec) : L (List Sec × List Sec × Sec) := do
   let k1 ← trailingZeros n a
   let k2 ← trailingZeros n b
-  let k := select k1 k2 (maskLt k2 k1)
-  let s1o ← overflowingShr n a k
+  let s1o ← overflowingShr n a (select k1 k2 (maskLt k2 k1))
   let s1 ← uselect n (zeros n) s1o.1 s1o.2
-  let s2o ← overflowingShr n b k
+  let s2o ← overflowingShr n b (select k1 k2 (maskLt k2 k1))
   let s2 ← uselect n (zeros n) s2o.1 s2o.2
   pubIndex 0
-  let odd2 := maskLsb (and (limb s2 0) one)
-  let f ← uselect n s1 s2 (not odd2)
-  let g ← uselect n s1 s2 odd2
-  let r ← safegcdGcd n f g
+  let f ← uselect n s1 s2 (not (maskLsb (and (limb s2 0) one)))
+  let g ← uselect n s1 s2 (maskLsb (and (limb s2 0) one))
+  pure (f, g, select k1 k2 (maskLt k2 k1))
+
+/-- the last step of `Uint::gcd`: `.overflowing_shl(k).unwrap_or(ZERO)` -/
+def ugcdFinish (n : Nat) (r : List Sec) (k : Sec) : L (List Sec) := do
   let sh ← overflowingShl n r k
   uselect n (zeros n) sh.1 sh.2
 
+/-- `Uint::gcd(rhs)`: strip the common power of two, the safegcd of the (odd, any) pair, shift back -/
+def ugcd (n : Nat) (a b : List Sec) : L (List Sec) := do
+  let o ← ugcdOperands n a b
+  let r ← safegcdGcd n o.1 o.2.1
+  ugcdFinish n r o.2.2
+
+/-- `Uint::bitand` -/
+def ubitand (n : Nat) (a b : List Sec) : L (List Sec) :=
+  forN n (fun i r => do pubIndex i; pure (r ++ [and (limb a i) (limb b i)])) []
+
+/-- `ConstCtOption::unwrap_or(ZERO)` = `Uint::select(&ZERO, &value, is_some)` -/
+def unwrapOrZero (n : Nat) (v : List Sec) (isSome : Sec) : L (List Sec) := uselect n (zeros n) v isSome
+
+/-- the first step of `Uint::inv_mod`: `modulus = s·2^k`; returns (s, k) with `k` SECRET (it only feeds a shift ladder) -/
+def uinvModSplit (n : Nat) (modulus : List Sec) : L (List Sec × Sec) := do
+  let k ← trailingZeros n modulus
+  let so ← overflowingShr n modulus k
+  let s ← unwrapOrZero n so.1 so.2
+  pure (s, k)
+
+/-- the steps of `Uint::inv_mod` after the inversion modulo the odd part `s` (`ma` = its value and flag): `inv_mod2k(k)` twice
+(`k` secret), one Garner step; all masks -/
+def uinvModFinish (n : Nat) (a s : List Sec) (k : Sec) (ma : List Sec × Sec) : L (List Sec × Sec) := do
+  pubIndex 0
+  let mb ← invMod2k n a k
+  let av ← unwrapOrZero n ma.1 (and ma.2 (maskLsb (and (limb s 0) one)))
+  let bv ← unwrapOrZero n mb.1 mb.2
+  let mi ← invMod2k n s k
+  let moi ← unwrapOrZero n mi.1 mi.2
+  let sh ← overflowingShl n (uone n) k
+  let shifted ← unwrapOrZero n sh.1 sh.2
+  let mask ← wrappingSub n shifted (uone n)
+  let d ← wrappingSub n bv av
+  let t0 ← wrappingMul n n d moi
+  let t ← ubitand n t0 mask
+  let st ← wrappingMul n n s t
+  let r ← wrappingAdd n av st
+  pure (r, and (and ma.2 (maskLsb (and (limb s 0) one))) mb.2)
+
+/-- `Uint::inv_mod(modulus)` for ANY modulus (src/uint/inv_mod.rs:134-170): split `modulus = s·2^k`, invert modulo the
+odd part with safegcd and modulo `2^k` with `inv_mod2k(k)`, recombine; (value, is_some).
+Everything outside the safegcd call is mask arithmetic. -/
+def uinvMod (n : Nat) (a modulus : List Sec) : L (List Sec × Sec) := do
+  let sk ← uinvModSplit n modulus
+  let ma ← safegcdInv n sk.1 a
+  uinvModFinish n a sk.1 sk.2 ma
 
 /-! ## Special-modulus forms, `double_mod`, `mul_mod`, `div_by_2` (src/uint/{add_mod,sub_mod,mul_mod}.rs,
 src/modular/{monty_form,div_by_2}.rs) -/
@@ -2065,6 +2118,62 @@ def remWideVartime (n : Nat) (lo hi d : List Sec) : L (List Sec) := do
   let db ← bitsVartime n d
   let dbits ← declassify db
   remWideBody n dbits lo hi d
+
+/-! ### `div_rem_vartime` / `rem_vartime` (src/uint/div.rs:190-306): variable-time in the DIVISOR only -/
+
+/-- one quotient digit at position `xi` (public); state = (x, x_hi) -/
+def dvTrip (yc xi : Nat) (y : List Sec) (recip : Sec) (st : List Sec × Sec) : L (List Sec × Sec) := do
+  pubIndex xi; pubIndex (xi - 1); pubIndex (yc - 1); pubIndex (yc - 2)
+  let quo ← div3by2 st.2 (limb st.1 xi) (limb st.1 (xi - 1)) (limb y (yc - 1)) recip (limb y (yc - 2))
+  let s ← rwSubLoop xi yc y quo st.1
+  let a ← rwAddLoop xi yc y (Sec.sbb st.2 s.2.1 s.2.2).2 s.1
+  pure (a.1.set xi (select quo (sub quo one) (Sec.sbb st.2 s.2.1 s.2.2).2), limb a.1 xi)
+
+/-- the `loop`: `xi` from `LIMBS − 1` down to `yc − 1` -/
+def dvLoop (n yc : Nat) (y : List Sec) (recip : Sec) (st : List Sec × Sec) : L (List Sec × Sec) :=
+  forN (n - yc + 1) (fun t st => dvTrip yc (n - 1 - t) y recip st) st
+
+/-- `y[i] = x[i]` for `i < yc − 1`, `y[yc − 1] = x_hi` -/
+def dvCopyRem (yc : Nat) (x : List Sec) (xHi : Sec) (y : List Sec) : L (List Sec) := do
+  let l ← forN (yc - 1) (fun i r => do pubIndex i; pure (r.set i (limb x i))) y
+  pubIndex (yc - 1)
+  pure (l.set (yc - 1) xHi)
+
+/-- `x[i] = x[i + yc − 1]` for `i ≤ LIMBS − yc`, else zero -/
+def dvShiftQuo (n yc : Nat) (x : List Sec) : L (List Sec) :=
+  forN n (fun i r => do
+    pubCond (decide (i ≤ n - yc))
+    pubIndex i
+    if i ≤ n - yc then do pubIndex (i + yc - 1); pure (r.set i (limb r (i + yc - 1))) else pure (r.set i zero)) x
+
+/-- `div_rem_vartime` after `dbits = rhs.bits_vartime()` has become public (same limb count on both sides) -/
+def divRemVartimeBody (n dbits : Nat) (a d : List Sec) : L (List Sec × List Sec) := do
+  pubCond (decide ((dbits + 63) / 64 = 1))
+  if (dbits + 63) / 64 = 1 then do
+    pubIndex 0
+    let qr ← divRemLimb n a (limb d 0)
+    pure (qr.1, fromWord n qr.2)
+  else do
+    pubCond (decide ((dbits + 63) / 64 > n))
+    if (dbits + 63) / 64 > n then do
+      let r ← resize n n a
+      pure (zeros n, r)
+    else do
+      let xs ← shlLimbVartime n a ((64 - dbits % 64) % 64) n
+      let ys ← shlLimbVartime n d ((64 - dbits % 64) % 64) ((dbits + 63) / 64)
+      pubIndex ((dbits + 63) / 64 - 1)
+      let recip ← reciprocal (limb ys.1 ((dbits + 63) / 64 - 1))
+      let st ← dvLoop n ((dbits + 63) / 64) ys.1 recip (xs.1, xs.2)
+      let yr ← dvCopyRem ((dbits + 63) / 64) st.1 st.2 ys.1
+      let yv ← shrLimbVartime n yr ((64 - dbits % 64) % 64) ((dbits + 63) / 64)
+      let q ← dvShiftQuo n ((dbits + 63) / 64) st.1
+      pure (q, yv)
+
+/-- `Uint::div_rem_vartime(rhs)` ("variable only with respect to `rhs`") -/
+def divRemVartime (n : Nat) (a d : List Sec) : L (List Sec × List Sec) := do
+  let db ← bitsVartime n d
+  let dbits ← declassify db
+  divRemVartimeBody n dbits a d
 
 /-- `Uint::mul_mod_vartime(rhs, p)` and — NOT named vartime — `<Uint as MulMod>::mul_mod(rhs, p)`, which forwards to it -/
 def mulModVartime (n : Nat) (a b p : List Sec) : L (List Sec) := do
